@@ -405,6 +405,23 @@ def _balanced(tok: str, i: int) -> int:
     return -1
 
 
+def _split_top(tok: str) -> list[str]:
+    """split at commas that are not inside (), [], {} or <>"""
+    out, d, cur = [], 0, ""
+    for ch in tok:
+        if ch in "([{<":
+            d += 1
+        elif ch in ")]}>":
+            d -= 1
+        if ch == "," and d == 0:
+            out.append(cur)
+            cur = ""
+        else:
+            cur += ch
+    out.append(cur)
+    return out
+
+
 def _rewrite(tok: str, head: str, fn) -> str:
     """Replace every `head(X).k` (X balanced, k a digit) by fn(X, k)."""
     out, i = "", 0
@@ -437,6 +454,13 @@ def _norm(tok: str) -> str:
             if inner.startswith(head + "(") and _balanced(inner, len(head)) == len(inner):
                 x = inner[len(head) + 1:-1]
                 return a(x) if k == "0" else b(x) if k == "1" else None
+        # elem(map((a, b), S)).k  ->  a / b     (the element of a list of tuples built by a comprehension over S)
+        if inner.startswith("map(") and _balanced(inner, 3) == len(inner):
+            parts = _split_top(inner[4:-1])
+            if len(parts) == 2 and parts[0].startswith("(") and _balanced(parts[0], 0) == len(parts[0]):
+                comps = _split_top(parts[0][1:-1])
+                if k.isdigit() and int(k) < len(comps):
+                    return comps[int(k)]
         return None
     for _ in range(6):
         t0 = tok
